@@ -160,7 +160,7 @@ class KernelInterpolation(darsia.Model):
         parameters: np.ndarray,
         dofs: Optional[Union[list[Literal["kernel", "values"]], Literal["all"]]] = None,
     ) -> None:
-        if "supports" in dofs:
+        if dofs is not None and "supports" in dofs:
             raise ValueError("Supports cannot be updated. Use update method.")
 
         if dofs is None or dofs == "all" or set(dofs) == set(["kernel", "values"]):
